@@ -8,9 +8,11 @@ import sys, os, json, subprocess, tempfile, shutil, re, time
 ROOT = os.path.dirname(os.path.dirname(os.path.abspath(__file__)))
 def run(cmd, **kw): return subprocess.run(cmd, capture_output=True, text=True, **kw)
 
-def props_for(files):
+def props_for(files, text=""):
+    """properties served by a contract on a function the patch touches (function names taken from the hunk headers and from meta.json); all records of the file when none matches"""
     code = ("import sys, json; sys.path.insert(0, %r); import importlib; importlib.import_module('contracts.kernels'); from pyvc.registry import RECORDS; "
-            "print(json.dumps(sorted({p for r in RECORDS if r['file'] in %r for p in r['props']})))") % (ROOT, list(files))
+            "recs = [r for r in RECORDS if r['file'] in %r]; hit = [r for r in recs if r['qualname'].split('.')[-1].split('#')[0] in %r]; "
+            "print(json.dumps(sorted({p for r in (hit or recs) for p in r['props']})))") % (ROOT, list(files), text)
     out = run(["python3-vt", "-c", code], cwd=ROOT).stdout.strip().splitlines()
     return json.loads(out[-1]) if out else []
 
@@ -21,7 +23,8 @@ def main():
     for bid in ids:
         d = os.path.join(bdir, bid); patch = open(os.path.join(d, "patch.diff")).read()
         files = sorted(set(re.findall(r"^\+\+\+ b/(\S+)", patch, re.M)))
-        props = props_for(files)
+        meta = json.load(open(os.path.join(d, "meta.json"))) if os.path.exists(os.path.join(d, "meta.json")) else {}
+        props = props_for(files, " ".join(re.findall(r"^@@.*@@(.*)$", patch, re.M)) + " " + str(meta.get("function", "")) + " " + " ".join(re.findall(r"^[-+ ]\s*def (\w+)", patch, re.M)))
         if any(f.endswith("api.py") for f in files): props = sorted(set(props) | {"C17"})
         if any(f.endswith("core.py") for f in files): props = sorted(set(props) | {"C18", "C13"})
         wt = tempfile.mkdtemp(prefix=f"benign_{bid}_"); os.rmdir(wt)
